@@ -284,11 +284,13 @@ pub struct Gen<'a> {
 
 impl<'a> Gen<'a> {
     pub fn new(rng: &'a mut Rng, cfg: GenCfg) -> Self {
+        static INTS: std::sync::OnceLock<Vec<Int>> = std::sync::OnceLock::new();
+        static FLOATS: std::sync::OnceLock<Vec<f64>> = std::sync::OnceLock::new();
         Gen {
             rng,
             cfg,
-            ints: boundary_ints(),
-            floats: boundary_floats(),
+            ints: INTS.get_or_init(boundary_ints).clone(),
+            floats: FLOATS.get_or_init(boundary_floats).clone(),
             nodes: 0,
         }
     }
